@@ -9,7 +9,7 @@ Definition ibb_max_buffer : N := 262144%N.
 (* handlePayload: the wake-up of a pending Read is an unconditional top-level statement
    after the append to the read buffer; returns between the two, by kind *)
 Definition ibb_payload_notify_unconditional : bool := true.
-Definition ibb_payload_success_returns_before_notify : nat := 1.
+Definition ibb_payload_success_returns_before_notify : nat := 0.
 Definition ibb_payload_error_returns_before_notify : nat := 2.
 
 (* Handler.rmStream deletes the entry only under `if h.streams[sid] == conn` *)
